@@ -42,10 +42,15 @@ Inductive dty :=
 Inductive fkind := FElem | FAttr.
 Record fld := mkfld {
   fl_name : text; fl_ty : dty; fl_min : Z; fl_max : ext; fl_nillable : bool; fl_kind : fkind;
-  fl_choice : option Z;           (* xml_choice_group *)
   fl_default : option sval;       (* Attributes.default (leaf members) *)
   fl_use : option bool }.         (* XmlAttribute(use=...): Some true = 'required' *)
-Record klass := mkklass { k_ns : text; k_name : text; k_parent : option cid; k_own : list fld }.
+(** an entry of _type_info, or a maximal run of consecutive members that share an
+    xml_choice_group (the run is kept together so that "the members of a group are declared
+    next to each other" is a property of the representation: [g] identifies the group) *)
+Inductive item := IOne (f : fld) | IGroup (g : Z) (ms : list fld).
+Definition item_flds (i : item) : list fld := match i with IOne f => [f] | IGroup _ ms => ms end.
+Record klass := mkklass { k_ns : text; k_name : text; k_parent : option cid; k_items : list item }.
+Definition k_own (cl : klass) : list fld := flat_map item_flds (k_items cl).
 Definition univ := list klass.
 
 Inductive value :=
@@ -281,45 +286,34 @@ Definition fld_edecl (U : univ) (f : fld) : edecl :=
   edecl_of U (fl_name f) (fl_ty f) (fl_min f) (fl_max f) (fl_nillable f) (default_text f).
 
 (** the sequence of a class: members in declaration order; the members of a choice group
-    share one choice particle, placed at the first member (choice_in_place) or after all
-    members *)
-Fixpoint group_members (g : Z) (fs : list fld) : list fld :=
-  match fs with
-  | [] => []
-  | f :: r => match fl_kind f, fl_choice f with
-              | FElem, Some g' => if g =? g' then f :: group_members g r else group_members g r
-              | _, _ => group_members g r
-              end
-  end.
-Fixpoint seq_of (U : univ) (all : list fld) (seen : list Z) (fs : list fld) : list particle * list particle :=
-  match fs with
+    (all runs with the same group id) share one choice particle, placed where the first run
+    is declared (choice_in_place) or after all members *)
+Definition is_elem (f : fld) : bool := match fl_kind f with FElem => true | FAttr => false end.
+Definition group_all (g : Z) (its : list item) : list fld :=
+  flat_map (fun i => match i with IGroup g' ms => if g =? g' then ms else [] | IOne _ => [] end) its.
+Fixpoint seq_of (U : univ) (all : list item) (seen : list Z) (its : list item) : list particle * list particle :=
+  match its with
   | [] => ([], [])
-  | f :: r =>
-      match fl_kind f with
-      | FAttr => seq_of U all seen r
-      | FElem =>
-          match fl_choice f with
-          | None => let '(a, b) := seq_of U all seen r in (PElem (fld_edecl U f) :: a, b)
-          | Some g =>
-              if existsb (Z.eqb g) seen then seq_of U all seen r
-              else
-                let ch := PChoice (map (fld_edecl U) (group_members g all)) in
-                let '(a, b) := seq_of U all (g :: seen) r in
-                if choice_in_place then (ch :: a, b) else (a, ch :: b)
-          end
-      end
+  | IOne f :: r =>
+      if is_elem f then let '(a, b) := seq_of U all seen r in (PElem (fld_edecl U f) :: a, b)
+      else seq_of U all seen r
+  | IGroup g _ :: r =>
+      if existsb (Z.eqb g) seen then seq_of U all seen r
+      else
+        let ch := PChoice (map (fld_edecl U) (filter is_elem (group_all g all))) in
+        let '(a, b) := seq_of U all (g :: seen) r in
+        if choice_in_place then (ch :: a, b) else (a, ch :: b)
   end.
-Definition particles_of (U : univ) (fs : list fld) : list particle :=
-  let '(a, b) := seq_of U fs [] fs in a ++ b.
+Definition particles_of (U : univ) (its : list item) : list particle :=
+  let '(a, b) := seq_of U its [] its in a ++ b.
 
 Definition adecl_of (f : fld) : adecl :=
   mkadecl (fl_name f) (match fl_ty f with DLeaf st => leaf_qn st | _ => ([], []) end)
           (attr_use (fl_use f) (fl_min f)) None.
-Definition attrs_of (fs : list fld) : list adecl :=
-  map adecl_of (filter (fun f => match fl_kind f with FAttr => true | FElem => false end) fs).
+Definition attrs_of (fs : list fld) : list adecl := map adecl_of (filter (fun f => negb (is_elem f)) fs).
 
 Definition cdef_of (U : univ) (cl : klass) : cdef :=
-  mkcdef (k_name cl) (option_map (klass_qn U) (k_parent cl)) (particles_of U (k_own cl)) (attrs_of (k_own cl)).
+  mkcdef (k_name cl) (option_map (klass_qn U) (k_parent cl)) (particles_of U (k_items cl)) (attrs_of (k_own cl)).
 
 (** the types a member type brings into the schema (besides classes of the universe) *)
 Fixpoint member_types (U : univ) (t : dty) : list (text * tdef) :=
